@@ -593,7 +593,7 @@ def _solve_one(args):
     except Exception as e:
         return (idx, "undecided", "none", time.time() - t0, None, f"encoding error: {type(e).__name__}: {e}")
     trig = _has_trig(fs)
-    short = min(3000, timeout_ms)
+    short = min(2000, timeout_ms)
     r, s = _z3_check(fs, short)
     attempts.append(f"z3={r}")
     if r == z3.unsat:
@@ -619,7 +619,7 @@ def _solve_one(args):
             fi = ob.formulas(extra_trig=trig, instantiate=True)
             fg = [f for f in fi if T.quantifier_free(f)]
             try:
-                r9, _ = _z3_check(T.abstract_nonlinear(fg), min(timeout_ms, 6000))
+                r9, _ = _z3_check(T.abstract_nonlinear(fg), min(timeout_ms, 25000))
             except z3.Z3Exception as e:
                 r9 = f"error({e})"
             attempts.append(f"z3[inst-ground+nl-abstraction]={r9}")
